@@ -86,6 +86,17 @@ def machinery(ctx, rule):
     ctx.ob(rule, fi, ok, "Transformed._parse decodes what it read once and parses exactly the decoded bytes", key="Transformed _parse")
     rd = [e for p in paths for e in p.events if e.kind == "READ"]
     ctx.ob(rule, fi, bool(rd) and all(e["length"] == N.selfattr("decodeamount") for e in rd), "Transformed._parse reads decodeamount bytes when an amount is given", key="Transformed _parse amount")
+    da = N.selfattr("decodeamount")
+    none_tests = (("call", ("free", "isinstance"), (da, ("call", ("free", "type"), (N.NONE,), ())), ()), N.mk_cmp("is", da, N.NONE))
+    ok = True
+    nall = 0
+    for p in paths:
+        for e in p.events:
+            if e.kind == "READALL" and not e.depth:
+                nall += 1
+                before = p.guards(e)
+                ok = ok and any(t in before for t in none_tests) and da not in before and N.mk_not(da) not in before
+    ctx.ob(rule, fi, ok and nall >= 1, "Transformed._parse reads to the end of the stream only when decodeamount is None (tested as None, not by truthiness: an amount of 0 reads nothing)", key="Transformed _parse read-all guard")
     fi, paths = own_method_paths(ctx, "Transformed", "_build")
     ok = bool(paths)
     for p in paths:
@@ -275,7 +286,7 @@ def rest(ctx):
     unused_parameters(ctx, "C10.R5", lambda f: f.relpath.endswith(("lib/binary.py", "lib/bitstream.py")))      # e.g. a `signed` or `swapped` flag accepted and ignored
     # ---- R6: the two machines the macros instantiate: the inner construct only ever sees the decoded view
     machinery(ctx, "C10.R6")
-    ctx.floor("C10.R6", 8)
+    ctx.floor("C10.R6", 9)
     # which of the two region implementations runs is decided by subcon.sizeof(): the sizing methods are side-effect free and translate a
     # missing key (e.g. this._index in an element width) into SizeofError instead of inventing a value (shared with C05.R1)
     from . import C05
